@@ -205,9 +205,10 @@ static void huge_part(void)
 			continue;
 		/* 2^28+1000 and 2^29+2^20+33: internal chunking constants of the portable code (every kernel, also the table-driven base ones);
 		 * 2^32 and beyond: 32-bit counters (vector kernels in the quick tier, all kernels in the thorough tier) */
-		const uint64_t lens[] = { (1ull << 28) + 1000, (1ull << 29) + (1u << 20) + 33, G4, G4 + 1, G4 + 4097, G4 + (16u << 20) + 3 };
-		for (unsigned li = 0; li < 6; li++) {
-			if (!v_thorough && li != 1 && li != 3 && li != 5)
+		/* 2^32 + k*5552 (+ a multiple of the kernels' own block sizes): the remaining count after a block is then a non-zero multiple of 2^32 */
+		const uint64_t lens[] = { (1ull << 28) + 1000, (1ull << 29) + (1u << 20) + 33, G4, G4 + 1, G4 + 4097, G4 + (16u << 20) + 3, G4 + 5552, G4 + 3 * 5552, G4 + 4096 * 64, G4 + 128 };
+		for (unsigned li = 0; li < 10; li++) {
+			if (!v_thorough && li != 1 && li != 3 && li != 5 && !(li >= 6 && (f == F_ADLER || li == 8 || li == 9)))
 				continue;
 			if (slow && !v_thorough && li != 1)
 				continue;
